@@ -36,6 +36,16 @@ CHECKS = {
             "range for every double) are checked on the implementation and by the bit-exact "
             "correspondence only, not proved",
             "section 6 C05"),
+    "C06": ("proof",
+            "Coq theorems for every arithmetic instance on the identity layer: an operation of the "
+            "history machine changes at most its designated target (frame), results of "
+            "constructors, +, *, zero, copy consist of new objects distinct from all existing ones; "
+            + TIE + "; the identity partition (id() of every aggregator and of every dict/list it "
+            "owns, across the whole pool) is compared with the model after every operation, and the "
+            "snapshots of all non-target entries must stay unchanged",
+            "that the identities kept by fill/+= stay pairwise distinct is observed, not proved; the "
+            "step from 'no shared objects' to Python's heap semantics is argued in DESIGN.md, not proved",
+            "section 6 C06"),
     "C07": ("proof",
             "Coq theorems for every arithmetic instance: on every pair that + accepts, += yields "
             "exactly add_t a b and does not raise; += and + accept the same pairs; " + TIE +
@@ -64,6 +74,13 @@ CHECKS = {
             "faults are injected through quantity functions; collections/Fraction/Stack are outside "
             "the guarantee as the property says",
             "section 6 C12"),
+    "C16": ("proof",
+            "Coq theorem about the guard as coded (identity list threaded through a pre-order walk): "
+            "it raises exactly when some object occupies two fillable positions; a rejected fill "
+            "changes nothing; " + TIE + " on trees with a child object installed at a second "
+            "position (siblings, cousins), first and later fills, and unshared controls",
+            "cycles (a node below itself) are probed on the implementation only",
+            "section 6 C16"),
 }
 
 ALL = ["C%02d" % i for i in range(1, 18)]
